@@ -35,12 +35,12 @@ ABSENT = ["zzz", "a.gb", "a.gbk", "c", "c.d.gb", "sub/f", "sub", "x", "x.gb", "n
 def bounds(tier):
     return dict(embedded="all items of ytk, ptk, cidar, ecoflex, plant", file_alphabet=ENTRIES, max_entries=4 if tier == "quick" else 6,
                 backends=["OSFS (real directory)", "MemoryFS"], extensions=["default", ["gb"], ["gbff"]], absent_keys=ABSENT,
-                combined=dict(members=["A", "B (overlaps A with different items)", "A again", "embedded PTK", "empty"], ops=["<<", "add_registry"], depth=4))
+                combined=dict(members=["A", "B (overlaps A with different items)", "A again", "C (larger, overlaps A and B)", "embedded PTK", "P1 (one local plasmid under a PTK id)", "empty"], ops=["<<", "add_registry"], depth=4))
 
 
 def goals(tier):
     return ["embedded-items", "fs-supported-file", "fs-ignored-file", "fs-case-variant-extension", "fs-subdirectory", "fs-directory-named-like-a-plasmid",
-            "fs-dotted-stem", "fs-empty-directory", "combined-overlap-first-wins", "combined-repeated-member", "combined-closure-or-depth"]
+            "fs-dotted-stem", "fs-empty-directory", "combined-overlap-first-wins", "combined-small-before-large-overlap", "combined-repeated-member", "combined-closure-or-depth"]
 
 
 # ---------------------------------------------------------------------------------------------
@@ -296,10 +296,12 @@ def unit_fs(st, size, c, nchunks):
 # ---------------------------------------------------------------------------------------------
 # combined registries: explicit-state BFS against a dict model
 
-MEMBERS = ["A", "B", "A2", "PTK", "EMPTY"]
+MEMBERS = ["A", "B", "A2", "C", "PTK", "P1", "EMPTY"]
 
 
 def member(name, cache):
+    """A {a,b}; B {b,c.d} (other content); A2 = A again; C {a,b,c.d,e} (larger, overlaps A and B, other content);
+    PTK = embedded Pichia registry (21 items); P1 = one local plasmid stored under the first PTK id; EMPTY"""
     if name not in cache:
         if name == "A":
             cache[name] = make_registry("mem", ["a.gb", "b.gb"], None, None, variant=0)[0]
@@ -307,10 +309,15 @@ def member(name, cache):
             cache[name] = make_registry("mem", ["b.gb", "c.d.gb"], None, None, variant=1)[0]
         elif name == "A2":
             cache[name] = make_registry("mem", ["a.gb", "b.gb"], None, None, variant=0)[0]
+        elif name == "C":
+            cache[name] = make_registry("mem", ["a.gb", "b.gbk", "c.d.gb", "e.gb"], None, None, variant=2)[0]
         elif name == "EMPTY":
             cache[name] = make_registry("mem", ["notes.txt"], None, None)[0]
         elif name == "PTK":
             cache[name] = regs.registry_objects()["ptk"]
+        elif name == "P1":
+            first = sorted(regs.registry_objects()["ptk"])[0]
+            cache[name] = make_registry("mem", [first + ".gb"], None, None, variant=1)[0]
     return cache[name]
 
 
@@ -362,9 +369,11 @@ def unit_combined(st, tier):
                 nedges += 1
                 st.scenario("combined-edge", None, calls=len(md) + 4, nodes=0)
                 names = [m for _, m in nh]
-                if "A" in names and "B" in names:
+                if ("A" in names and "B" in names) or ("C" in names and ("A" in names or "B" in names)) or ("P1" in names and "PTK" in names):
                     st.nontrivial += 1
                     st.goal("combined-overlap-first-wins")
+                    if names.index("P1") < names.index("PTK") if ("P1" in names and "PTK" in names) else False:
+                        st.goal("combined-small-before-large-overlap")
                 if len(set(names)) < len(names) or ("A" in names and "A2" in names):
                     st.goal("combined-repeated-member")
                 canon = tuple(sorted(md.items()))
